@@ -409,7 +409,8 @@ impl Disconnect {
             let (props, consumed) = Properties::parse(&data[cursor..])?;
             cursor += consumed;
             validate_disconnect_properties(&props)?;
-            let prop_len = VariableByteInteger::from_u32(props.size() as u32).unwrap();
+            let prop_len = VariableByteInteger::from_len(props.size())
+                .map_err(|_| MqttError::MalformedPacket)?;
 
             (Some(prop_len), Some(props))
         } else {
@@ -422,7 +423,8 @@ impl Disconnect {
 
         let disconnect = Disconnect {
             fixed_header: [FixedHeader::Disconnect.as_u8()],
-            remaining_length: VariableByteInteger::from_u32(remaining_size as u32).unwrap(),
+            remaining_length: VariableByteInteger::from_len(remaining_size)
+                .map_err(|_| MqttError::MalformedPacket)?,
             reason_code_buf,
             property_length,
             props,
